@@ -104,6 +104,31 @@ pub struct TimesCase {
     /// set-up helper), install them later: counting must still start at the *installation*
     #[serde(default)]
     pub prebuilt: bool,
+    /// after the sequential lifetimes: several threads run lifetimes of ONE call site back to
+    /// back (the injector's global lock serialises them), every lifetime with the same
+    /// `times: n` and k matching calls
+    #[serde(default)]
+    pub parallel: Option<ParSpec>,
+}
+
+#[derive(Serialize, Deserialize, Clone, Debug, Hash, PartialEq, Eq)]
+pub struct ParSpec {
+    pub threads: u8,
+    pub rounds: u16,
+    pub site: u8,
+    pub n: u8,
+    pub k: u8,
+}
+
+#[derive(Serialize, Deserialize, Clone, Debug, Default)]
+pub struct ParObs {
+    pub lifetimes: u64,
+    /// lifetimes whose per-call outcomes were not "first min(k,n) return, the rest panic"
+    pub wrong_calls: u64,
+    /// lifetimes whose exit verdict was not "panic iff k != n"
+    pub wrong_verdicts: u64,
+    pub install_panics: u64,
+    pub first_wrong: Option<String>,
 }
 
 #[derive(Serialize, Deserialize, Clone, Debug, Default)]
@@ -135,6 +160,83 @@ pub struct TLifeObs {
 #[derive(Serialize, Deserialize, Clone, Debug, Default)]
 pub struct TimesObs {
     pub lifetimes: Vec<TLifeObs>,
+    #[serde(default)]
+    pub parallel: Option<ParObs>,
+}
+
+fn run_parallel(p: &ParSpec) -> ParObs {
+    let site = p.site % N_SITES;
+    let (n, k) = (p.n as usize, p.k as usize);
+    TIMES[site as usize].store(n, SeqCst);
+    let nt = p.threads.clamp(2, 8) as usize;
+    let rounds = p.rounds as usize;
+    let barrier = std::sync::Barrier::new(nt);
+    let parts: Vec<ParObs> = std::thread::scope(|s| {
+        let hs: Vec<_> = (0..nt)
+            .map(|_| {
+                let barrier = &barrier;
+                s.spawn(move || {
+                    let mut o = ParObs::default();
+                    barrier.wait();
+                    for r in 0..rounds {
+                        let inj = std::panic::catch_unwind(|| {
+                            ip::sut(|| {
+                                let mut inj = InjectorPP::new();
+                                let pair = match site {
+                                    0 => site0(),
+                                    1 => site1(),
+                                    2 => site2(),
+                                    _ => site3(),
+                                };
+                                match site {
+                                    0 => inj.when_called(injectorpp::func!(fn (tt_a)(u64) -> u64)).will_execute(pair),
+                                    1 => inj.when_called(injectorpp::func!(fn (tt_b)(u64) -> u64)).will_execute(pair),
+                                    2 => inj.when_called(injectorpp::func!(fn (tt_unit)(u64))).will_execute(pair),
+                                    _ => inj.when_called(injectorpp::func!(fn (tt_out)(u64, &mut u64) -> u64)).will_execute(pair),
+                                }
+                                inj
+                            })
+                        });
+                        let Ok(inj) = inj else {
+                            o.install_panics += 1;
+                            continue;
+                        };
+                        o.lifetimes += 1;
+                        let mut ok = true;
+                        for i in 0..k {
+                            let c = do_call(site, true, i as u64);
+                            if c.panic.is_none() != (i < n) {
+                                ok = false;
+                            }
+                        }
+                        if !ok {
+                            o.wrong_calls += 1;
+                        }
+                        let r2 = std::panic::catch_unwind(std::panic::AssertUnwindSafe(move || ip::sut(move || drop(inj))));
+                        if r2.is_err() != (k != n) {
+                            o.wrong_verdicts += 1;
+                            if o.first_wrong.is_none() {
+                                o.first_wrong = Some(format!("round {r}: scope exit {} although {k} matching calls were made against times: {n}", if r2.is_err() { format!("panicked ({})", crate::worker::last_panic()) } else { "did not panic".to_string() }));
+                            }
+                        }
+                    }
+                    o
+                })
+            })
+            .collect();
+        hs.into_iter().map(|h| h.join().unwrap_or_default()).collect()
+    });
+    let mut t = ParObs::default();
+    for p in parts {
+        t.lifetimes += p.lifetimes;
+        t.wrong_calls += p.wrong_calls;
+        t.wrong_verdicts += p.wrong_verdicts;
+        t.install_panics += p.install_panics;
+        if t.first_wrong.is_none() {
+            t.first_wrong = p.first_wrong;
+        }
+    }
+    t
 }
 
 /// the second counted fake lives on another site/target than the first
@@ -319,6 +421,10 @@ pub fn execute(c: &TimesCase) -> TimesObs {
     for p in table.into_iter().flatten() {
         std::mem::forget(p);
     }
+    if let Some(p) = &c.parallel {
+        crate::worker::phase("parallel-lifetimes");
+        o.parallel = Some(run_parallel(p));
+    }
     o
 }
 
@@ -347,7 +453,14 @@ pub fn strategy(c07_bias: bool) -> impl Strategy<Value = TimesCase> {
                 l.site = site;
             }
         }
-        TimesCase { lifetimes, prebuilt }
+        TimesCase { lifetimes, prebuilt, parallel: None }
+    })
+    .prop_flat_map(|c| {
+        let par = prop::option::weighted(0.08, (2u8..=4, prop_oneof![Just(600u16), Just(1500u16), 200u16..3000], 0u8..N_SITES, 0u8..=3, 0u8..=4).prop_map(|(threads, rounds, site, n, k)| ParSpec { threads, rounds, site, n, k: k.min(n + 1) }));
+        (Just(c), par).prop_map(|(mut c, parallel)| {
+            c.parallel = parallel;
+            c
+        })
     })
 }
 
@@ -517,6 +630,20 @@ pub fn judge(rec: &mut Recorder, c: &TimesCase, ex: Exec, _hello: &Value) -> Res
         if nontrivial {
             rec.nontrivial(&(li, l, repeated_site));
         }
+    }
+    if let (Some(p), Some(po)) = (&c.parallel, &o.parallel) {
+        rec.class(&format!("parallel-lifetimes/{}-threads/{}", p.threads.clamp(2, 8), if p.k == p.n { "exact" } else if p.k < p.n { "under-called" } else { "over-called" }));
+        rec.count("parallel_lifetimes", po.lifetimes);
+        if po.install_panics != 0 {
+            return rec.fail(&sig("install-refused/parallel-lifetimes"), format!("{} installations panicked while {} threads ran lifetimes of site {} back to back; case {c:?}", po.install_panics, p.threads, p.site % N_SITES));
+        }
+        if po.wrong_calls != 0 {
+            return rec.fail(&sig("admitted-count-wrong/parallel-lifetimes"), format!("{} of {} lifetimes (site {}, times: {}, {} matching calls each, {} threads taking turns) did not admit exactly the first min(k,N) calls; case {c:?}", po.wrong_calls, po.lifetimes, p.site % N_SITES, p.n, p.k, p.threads));
+        }
+        if po.wrong_verdicts != 0 {
+            return rec.fail(&sig("exit-verdict-from-another-lifetime"), format!("{} of {} lifetimes (site {}, times: {}, {} matching calls each, {} threads taking turns) got the wrong verdict at scope exit; first: {:?}; case {c:?}", po.wrong_verdicts, po.lifetimes, p.site % N_SITES, p.n, p.k, p.threads, po.first_wrong));
+        }
+        rec.nontrivial(&("parallel", p));
     }
     Ok(())
 }
